@@ -129,6 +129,7 @@ class Obs:
         self.lines = out.splitlines()
         self.T, self.S, self.L, self.R = {}, {}, {}, {}       # (accessor, lex) -> [dict,...] ; routes (kind, spelling, lex) -> [dict]
         self.bad_ops = [l for l in self.lines if l.startswith('bad-op')]
+        self.failed_asserts = [l for l in self.lines if l.startswith('assert-failed')]
         self.early_diff = [l for l in self.lines if l.startswith('early ') and ' differs ' in l]
         self.early_checked = next((int(l.split('checked=')[1].split()[0]) for l in self.lines if l.startswith('early-constants ')), 0)
         for ln in self.lines:
@@ -381,6 +382,14 @@ def run(tier):
         where = ' (no output at all: the probe died before main(), while a Lexicon was used during the static initialisation of a client translation unit)' if not o.lines else ''
         res.violation('crash', 'c13probe stopped (exit %d) after %d output lines%s %s\n%s' % (o.rc, len(o.lines), where, o.bad_ops[:3], o.err[-3000:]), script)
     else:
+        for ln in o.failed_asserts[:3]:
+            w = ln.split()
+            if w[1].startswith('identifier-of'):
+                res.violation('route:' + w[1], 'get_identifier(String) answers one node for the pool\'s String spelled `%s` and another for a String node with '
+                              'the same characters made by the client' % unhex(w[3]), '# %s\n' % ln + script)
+            else:
+                res.violation('lookalike:' + w[1], 'an ordinary symbol named `%s` (typed int) is treated like the constant: get_decltype of it is the constant\'s '
+                              'type, or does not have it as operand' % unhex(w[3]), '# %s\n' % ln + script)
         for ln in o.early_diff[:4]:
             what = ln.split()[1]
             res.violation('static-init:' + what, 'the constant `%s()` answered by a Lexicon that a client translation unit (linked before the library) uses during '
